@@ -1,5 +1,6 @@
 """C01 — a server connection serves one client at a time, for a whole transaction."""
 from mirlib import *
+from common import cancelled_io_findings
 
 H = "pgcat::client::Client::handle::{closure#0}"
 ROUND_TRIPS = ("pgcat::client::Client::send_and_receive_loop", "pgcat::client::Client::receive_server_message")
@@ -124,3 +125,9 @@ def run(ctx):
     # Server values are built in one place
     builders = sorted({b_.name for b_, blk, st in F.aggregates("pgcat::server::Server")})
     r5.check(builders == ["pgcat::server::Server::startup::{closure#0}"], "server-constructor", "Server values are built only by Server::startup", "Server constructed in %s" % builders)
+
+    # ---------------- R6 no unread reply on a connection that changes hands (shared with C02-R4)
+    r6 = ctx.rule("C01-R6", "a server whose reply was abandoned by a timeout is marked bad, so no later client reads a reply that belongs to someone else's request", floor=2)
+    for fn, ok, where, wit in cancelled_io_findings(F):
+        r6.check(ok, "elapsed-arm:" + fn.split("::")[-2], "timeout over server I/O in %s marks the server bad" % fn.split("::")[-2],
+                 "a timed-out request in %s leaves its reply unread on a reusable connection: the next client receives it as the result of its own statement" % fn.split("::")[-2], where, wit)
